@@ -158,6 +158,10 @@ inductive Late
   /-- a waiting route for the tunnel is registered by node `node` for `mappingID` (`startSourceBridge` on that
   node); `bridgeAppears`: on this node the bridge itself is there too (it is registered before the route) -/
   | route (mappingID : String) (node : String) (bridgeAppears : Bool)
+  /-- a bridge for `mappingID` is registered on this node in the WINDOW between the dispatcher's own look-up of
+  `tunnelBridges` (nothing found, success ack written) and the second look-up inside `handleTargetBridge` /
+  the insert-if-absent of `startSourceBridge` -/
+  | window (mappingID : String)
 deriving DecidableEq, Repr
 
 /-- `handleLocalBridgeWait`: polls `tunnelBridges` (5 s); attaches as target when the bridge is there. -/
@@ -172,10 +176,19 @@ def processCrossNodeForwardLate (w : World) (req : Req) (mappingID node : String
   else if node == w.nodeID then handleLocalBridgeWait bridgeAppears
   else ⟨.ok, .forward node, .err⟩
 
-/-- `handleTargetBridge` when no bridge exists at arrival: poll the routing table until something appears. -/
+/-- `handleTargetBridge` (success ack already out): the second look-up of `tunnelBridges` — a bridge found
+there is joined only if it belongs to the request's mapping; no bridge: poll the routing table. -/
 def handleTargetBridge (w : World) (req : Req) : Late → Outcome
+  | .window mappingID =>
+    if mappingID != req.MappingID then ⟨.ok, .none, .err⟩ else ⟨.ok, .target, .switch⟩
   | .none => ⟨.ok, .none, .pending⟩
   | .route mappingID node bridgeAppears => processCrossNodeForwardLate w req mappingID node bridgeAppears
+
+/-- `handleSourceBridge` → `startSourceBridge`: insert-if-absent under `bridgeLock`; a bridge registered in
+the window makes it fail with "tunnel already exists" (nothing attached). -/
+def handleSourceBridge : Late → Outcome
+  | .window _ => ⟨.ok, .none, .err⟩
+  | _ => ⟨.ok, .source, .switch⟩
 
 /-- `SessionManager.handleTunnelOpen` (repaired order: authorise, then dispatch); `late` is what appears while
 the request polls (only looked at on the polling branch). -/
@@ -191,8 +204,8 @@ def openTunnelDyn (w : World) (id : ConnIdent) (req : Req) (ts : TunnelState) (l
         | .remote mappingID node =>
           if mappingID != req.MappingID then refuse else processCrossNodeForward w node
         | .none =>
-          if isSourceClient w clientConn req then ⟨.ok, .source, .switch⟩   -- handleSourceBridge → startSourceBridge
-          else handleTargetBridge w req late   -- no bridge: polls the routing table
+          if isSourceClient w clientConn req then handleSourceBridge late
+          else handleTargetBridge w req late
 
 /-- The dispatcher when nothing changes while the request is handled. -/
 def openTunnel (w : World) (id : ConnIdent) (req : Req) (ts : TunnelState) : Outcome :=
